@@ -1,98 +1,18 @@
-import Gosyn.Model.Parser
-import Gosyn.Gen.Json
-open Gosyn.Model Gosyn.Gen Gosyn.Ast
+import Driver.ModelRun
+open Driver
 
-def hexNibble (c : Char) : Nat :=
-  if c.isDigit then c.toNat - 48 else if 'a' ≤ c && c ≤ 'f' then c.toNat - 87 else c.toNat - 55
-
-def unhex (s : String) : String :=
-  let cs := s.toList
-  let rec go : List Char → ByteArray → ByteArray
-    | a :: b :: r, acc => go r (acc.push (hexNibble a * 16 + hexNibble b).toUInt8)
-    | _, acc => acc
-  match String.fromUTF8? (go cs ByteArray.empty) with
-  | some s => s
-  | none => ""
-
-/-- JSON string escaping exactly as serde_json does it -/
-def jsonStr (cs : List Char) : String := Id.run do
-  let mut out := "\""
-  for c in cs do
-    if c = '"' then out := out ++ "\\\""
-    else if c = '\\' then out := out ++ "\\\\"
-    else if c = '\n' then out := out ++ "\\n"
-    else if c = '\r' then out := out ++ "\\r"
-    else if c = '\t' then out := out ++ "\\t"
-    else if c.toNat = 8 then out := out ++ "\\b"
-    else if c.toNat = 12 then out := out ++ "\\f"
-    else if c.toNat < 32 then
-      let h := "0123456789abcdef".toList
-      out := out ++ "\\u00" ++ String.singleton (h[c.toNat / 16]!) ++ String.singleton (h[c.toNat % 16]!)
-    else out := out.push c
-  return out ++ "\""
-
-def tokJson : Nat × Token → String
-  | (p, .comment x) => s!"[{p},\"Comment\",{jsonStr x}]"
-  | (p, .keyword k) => s!"[{p},\"Keyword\",\"{reprStr k |>.splitOn "." |>.getLast!}\"]"
-  | (p, .operator o) => s!"[{p},\"Operator\",\"{reprStr o |>.splitOn "." |>.getLast!}\"]"
-  | (p, .literal k x) => s!"[{p},\"{reprStr k |>.splitOn "." |>.getLast!}\",{jsonStr x}]"
-
-def scanAll (src : String) : String := Id.run do
-  let mut s : Scanner := { src := src.toList.toArray }
-  let mut toks : Array String := #[]
-  let mut err := "null"
-  for _ in [0:2 * s.src.size + 4] do
-    match s.nextToken with
-    | (.ok (some pt), s') => toks := toks.push (tokJson pt); s := s'
-    | (.ok none, s') => s := s'; break
-    | (.error (.scan e), s') => err := s!"\{\"kind\":\"Else\",\"line\":{e.loc.1},\"col\":{e.loc.2}}"; s := s'; break
-    | (.error (.panic site), s') => err := s!"\{\"kind\":\"Panic\",\"site\":{jsonStr site.toList}}"; s := s'; break
-  let ls := ", ".intercalate (s.lines.toList.map toString)
-  return s!"\{\"toks\":[{",".intercalate toks.toList}],\"err\":{err},\"lines\":[{ls}]}"
-
-partial def jText : J → String
-  | .null => "null"
-  | .num n => toString n
-  | .str s => jsonStr s.toList
-  | .bool b => if b then "true" else "false"
-  | .arr l => "[" ++ ",".intercalate (l.map jText) ++ "]"
-  | .obj l => "{" ++ ",".intercalate (l.map fun (k, v) => jsonStr k.toList ++ ":" ++ jText v) ++ "}"
-
-def tokText : Token → List Char
-  | .comment t => t
-  | .keyword k => k.str
-  | .operator o => o.str
-  | .literal _ t => t
-
-def errJson (e : PErr) : String :=
-  match e with
-  | .unexpected loc _ actual _ =>
-    let a := match actual with
-      | some (_, t) => jsonStr (tokText t)
-      | none => "null"
-    s!"\{\"kind\":\"Unexpected\",\"line\":{loc.1},\"col\":{loc.2},\"actual\":{a}}"
-  | .other loc _ _ => s!"\{\"kind\":\"Else\",\"line\":{loc.1},\"col\":{loc.2}}"
-  | .panic _ => "{\"kind\":\"Panic\"}"
-  | .fuel => "{\"kind\":\"Fuel\"}"
-
-def outcome {α} (toJ : α → J) (r : Except PErr α × PState) : String :=
-  match r.1 with
-  | .ok a => "{\"ok\":" ++ jText (toJ a) ++ "}"
-  | .error e => "{\"err\":" ++ errJson e ++ "}"
-
-partial def loop (h : IO.FS.Stream) : IO Unit := do
+partial def loopLines (h : IO.FS.Stream) (out : IO.FS.Stream) (f : String → String) : IO Unit := do
   let line ← h.getLine
   if line.isEmpty then return ()
-  match line.trimAscii.toString.splitOn " " with
-  | ["scan", hex] => IO.println (scanAll (unhex hex))
-  | ["file", hex] => IO.println (outcome File.toJson (runFile (unhex hex)))
-  | ["expr", hex] => IO.println (outcome Expression.toJson (runExpr (unhex hex)))
-  | ["stmt", hex] => IO.println (outcome Statement.toJson (runStmt (unhex hex)))
-  | ["file"] => IO.println (outcome File.toJson (runFile ""))
-  | ["expr"] => IO.println (outcome Expression.toJson (runExpr ""))
-  | ["stmt"] => IO.println (outcome Statement.toJson (runStmt ""))
-  | ["scan"] => IO.println (scanAll "")
-  | _ => IO.println "{\"bad-op\":true}"
-  loop h
+  if line.trimAscii.toString.isEmpty then loopLines h out f else
+  out.putStrLn (f line)
+  loopLines h out f
 
-def main : IO Unit := do loop (← IO.getStdin)
+def main (args : List String) : IO UInt32 := do
+  let stdin ← IO.getStdin
+  let stdout ← IO.getStdout
+  match args with
+  | ["model"] => loopLines stdin stdout modelLine; return 0
+  | _ =>
+    IO.eprintln "usage: driver model < cases"
+    return 2
